@@ -35,6 +35,14 @@ pub struct Scn {
     /// within its interval
     #[serde(default)]
     pub no_timeout: bool,
+    /// check timeout in ms (default 20, below the 50ms interval; 120 = rounds may overrun the
+    /// interval while every check still answers within its timeout)
+    #[serde(default = "default_timeout")]
+    pub timeout_ms: u64,
+}
+
+fn default_timeout() -> u64 {
+    TIMEOUT
 }
 
 const INTERVAL: u64 = 50;
@@ -77,7 +85,21 @@ pub fn gen(rng: &mut Rng) -> Scn {
     } else {
         resources
     };
+    // slow mode: timeout above the interval, checkers that take longer than the interval
+    let timeout_ms = if !no_timeout && rng.chance(1, 6) { 120 } else { TIMEOUT };
+    let resources: Vec<Vec<Check>> = if timeout_ms > INTERVAL {
+        let slow = *rng.pick(&[60u64, 70, 90]);
+        let style = rng.below(3);
+        resources
+            .into_iter()
+            .enumerate()
+            .map(|(ri, r)| r.into_iter().map(|c| Check { res: c.res, lat_ms: if c.lat_ms == 9999 { 9999 } else if style == 0 || (style == 1 && ri == 0) { slow } else if c.lat_ms > 20 { 150 } else { c.lat_ms } }).collect())
+            .collect()
+    } else {
+        resources
+    };
     Scn {
+        timeout_ms,
         no_timeout,
         resources,
         failure_threshold: rng.range(1, 4) as u32,
@@ -93,7 +115,8 @@ pub fn valid(s: &Scn) -> bool {
     (!s.no_timeout || s.resources.iter().all(|r| r.iter().all(|c| c.lat_ms <= 45)))
         && !s.resources.is_empty()
         && s.resources.len() <= 5
-        && s.resources.iter().all(|r| !r.is_empty() && r.len() <= 220 && r.iter().all(|c| c.res <= 3 && (c.lat_ms == 9999 || (c.lat_ms <= 45 && c.lat_ms % 5 == 0 && c.lat_ms != TIMEOUT))))
+        && s.resources.iter().all(|r| !r.is_empty() && r.len() <= 220 && r.iter().all(|c| c.res <= 3 && (c.lat_ms == 9999 || (c.lat_ms <= if s.timeout_ms > INTERVAL { 150 } else { 45 } && c.lat_ms % 5 == 0 && c.lat_ms != s.timeout_ms))))
+        && (s.timeout_ms == TIMEOUT || s.timeout_ms == 120)
         && s.failure_threshold >= 1
         && s.failure_threshold <= 5
         && s.success_threshold >= 1
@@ -129,6 +152,7 @@ pub fn run(s: &Scn, ctx: &mut RunCtx) -> RunOutput {
     let setup = move || {
         let scripts = Arc::new(scn.resources.clone());
         let no_timeout = scn.no_timeout;
+        let timeout_ms = scn.timeout_ms;
         let counters: Arc<Vec<std::sync::atomic::AtomicUsize>> = Arc::new((0..nres).map(|_| std::sync::atomic::AtomicUsize::new(0)).collect());
         let sc = scripts.clone();
         let cn = counters.clone();
@@ -144,7 +168,7 @@ pub fn run(s: &Scn, ctx: &mut RunCtx) -> RunOutput {
                     world::fault("checker_never");
                     std::future::pending::<()>().await;
                 } else if c.lat_ms > 0 {
-                    if c.lat_ms > TIMEOUT && !no_timeout {
+                    if c.lat_ms > timeout_ms && !no_timeout {
                         world::fault("checker_slow");
                     }
                     tokio::time::sleep(Duration::from_millis(c.lat_ms)).await;
@@ -160,7 +184,7 @@ pub fn run(s: &Scn, ctx: &mut RunCtx) -> RunOutput {
         let mut b = HealthCheckWrapper::builder()
             .with_checker(checker)
             .with_interval(Duration::from_millis(INTERVAL))
-            .with_timeout(if scn.no_timeout { Duration::MAX } else { Duration::from_millis(TIMEOUT) })
+            .with_timeout(if scn.no_timeout { Duration::MAX } else { Duration::from_millis(scn.timeout_ms) })
             .with_initial_delay(Duration::from_millis(scn.initial_delay_ms))
             .with_failure_threshold(scn.failure_threshold)
             .with_success_threshold(scn.success_threshold)
@@ -240,14 +264,14 @@ pub fn run(s: &Scn, ctx: &mut RunCtx) -> RunOutput {
     for (r, res, k) in notes(&log, "check_start") {
         let res = res as usize;
         let c = s.resources[res][(k as usize).min(s.resources[res].len() - 1)];
-        let timed_out = !s.no_timeout && (c.lat_ms == 9999 || c.lat_ms > TIMEOUT);
-        let done = r.t_us + if timed_out { TIMEOUT } else { c.lat_ms } * 1000;
+        let timed_out = !s.no_timeout && (c.lat_ms == 9999 || c.lat_ms > s.timeout_ms);
+        let done = r.t_us + if timed_out { s.timeout_ms } else { c.lat_ms } * 1000;
         verdicts.push((res, done, k as u64, if timed_out { 2 } else { c.res }));
     }
     verdicts.sort_by_key(|v| (v.1, v.2));
     // the background loop is alive: without stop()/start() in between, every resource is checked
     // once per interval from the initial delay on
-    if s.restarts.is_empty() {
+    if s.restarts.is_empty() && s.timeout_ms <= INTERVAL {
         let end_ms = rep.end_us / 1000;
         let due = (end_ms.saturating_sub(s.initial_delay_ms) / INTERVAL).saturating_sub(1);
         for res in 0..nres {
